@@ -192,6 +192,10 @@ impl Stats {
     pub fn set_extra(&self, k: &str, v: serde_json::Value) {
         self.extra.lock().unwrap().insert(k.to_string(), v);
     }
+    /// labels starting with `prefix` and their counts
+    pub fn labels_with_prefix(&self, prefix: &str) -> Vec<(String, u64)> {
+        self.classes.lock().unwrap().iter().filter(|(k, _)| k.starts_with(prefix)).map(|(k, v)| (k.clone(), *v)).collect()
+    }
     pub fn distinct_nontrivial(&self) -> usize {
         self.nontrivial.lock().unwrap().len()
     }
